@@ -41,6 +41,7 @@ fn main() {
         "c05" => props::chain::run(&cfg, props::chain::Which::C05),
         "c19" => props::c19::run(&cfg),
         "c20" => props::c20::run(&cfg),
+        "c18" => props::c18::run(&cfg),
         _ => { eprintln!("unknown property {}", prop); std::process::exit(2); }
     };
     if let Some(dir) = std::path::Path::new(&cfg.out).parent() {
